@@ -492,6 +492,10 @@ class Flow:
                         if base is not None:
                             return (base[0], base[1] + (int(k[4]),))
                     return (self.root_of(l), None)  # non-constant index
+                if (t["f"].get("def") in ("std::clone::Clone::clone", "std::ops::Deref::deref") or
+                        n.endswith(("::clone", "::unwrap", "::as_ref", "::branch"))) and t["args"] and t["args"][0][0] != "k" \
+                        and not [p for p in t["args"][0][1][1:] if p != "*"]:
+                    return self._index_path(t["args"][0], depth + 1)
             elif bb >= 0:
                 rv = self.body.stmts(bb)[j][2]
                 if rv[0] in ("ref", "raw") and len([p for p in rv[2][1:] if p != "*"]) == 0:
